@@ -20,7 +20,7 @@ struct H {
 	std::string model;
 	std::string trace;
 	uint64_t h = 0;
-	bool grew = false, gap = false, big = false, refused = false, atcap = false;
+	bool grew = false, gap = false, big = false, refused = false, atcap = false, selfarg = false;
 	H(Ctx &c) : ctx(c) { pb = printbuf_new(); }
 	void log(const std::string &s)
 	{
@@ -151,6 +151,39 @@ struct H {
 		if (pb->size != before)
 			grew = true;
 		check(true, "sprintbuf");
+	}
+	void do_sprintf_self(int variant, int pad)
+	{
+		std::string old(model.c_str()); // "%s" stops at the first NUL
+		char num[256];
+		snprintf(num, sizeof num, "%0*d", pad, 7);
+		std::string add;
+		int before = pb->size, r;
+		if (variant == 0)
+		{
+			r = sprintbuf(pb, "%s", pb->buf);
+			add = old;
+		}
+		else if (variant == 1)
+		{
+			r = sprintbuf(pb, "%0*d<%s>", pad, 7, pb->buf);
+			add = std::string(num) + "<" + old + ">";
+		}
+		else
+		{
+			r = sprintbuf(pb, "[%s|%s]", pb->buf, pb->buf);
+			add = "[" + old + "|" + old + "]";
+		}
+		model += add;
+		log("sprintbuf with the buffer's own text as argument, outlen=" + str(add.size()));
+		if (r != (int)add.size())
+			ctx.fail("retval", "sprintbuf with its own text as argument returned " + str(r) + " for output of " + str(add.size()) + " bytes");
+		if (add.size() >= 128)
+			big = true;
+		if (pb->size != before)
+			grew = true;
+		selfarg = true;
+		check(true, "sprintbuf(self)");
 	}
 	void reset()
 	{
@@ -350,6 +383,13 @@ void run_case(Choices &c, Ctx &ctx)
 			break;
 		}
 		case 3: { // sprintbuf
+			if (c.coin(10) && !big && h.model.size() < 3000 && h.pb->bpos < h.pb->size && h.pb->buf[h.pb->bpos] == 0)
+			{
+				// an argument that points into the print buffer itself (the text is terminated, so "%s" is well defined):
+				// the output must be formed from the old contents, wherever the buffer moves while growing
+				h.do_sprintf_self((int)c.pickn(3), (int)c.range(0, 200));
+				break;
+			}
 			size_t n;
 			switch (c.pick({3, 4, 2}))
 			{
@@ -399,6 +439,8 @@ void run_case(Choices &c, Ctx &ctx)
 		ctx.label("refused");
 	if (h.atcap)
 		ctx.label("memset_ends_at_capacity");
+	if (h.selfarg)
+		ctx.label("sprintbuf_argument_inside_the_buffer");
 	if (h.grew && (h.gap || h.big || h.refused || h.atcap))
 		ctx.nontrivial(h.h);
 	ctx.note(h.trace);
